@@ -142,10 +142,16 @@ static void run_case(const std::string& cid, Toks& t) {
         else P = extended_interpolation(A, S, lst, off, 0.0, tap != 0, nv, lv);   // filter_threshold 0: no truncation
         std::string par = par_rows_str(P) ;
         std::string dims = std::to_string(P->global_num_rows) + " " + std::to_string(P->global_num_cols) + " " + std::to_string(P->on_proc_num_cols);
+        std::string fil;
+        if (kind == "extended") {      // the same operator with the solver's default truncation threshold (filter_interp)
+            ParCSRMatrix* Pf = extended_interpolation(A, S, lst, off, 0.3, tap != 0, nv, lv);
+            fil = par_rows_str(Pf); delete Pf;
+        }
         delete P; delete S; delete A;
         emit0(cid, "PSEQ", seq);
         emit_all(cid, "PDIM", dims);
         emit_all(cid, "PPAR", par);
+        if (kind == "extended") emit_all(cid, "PFIL", fil);
     } else if (op == "seqinterp") {
         // sequential routines on an explicit matrix/strength/splitting: cid seqinterp kind nv n vars[n] states[n] nnzA (i j v)* nnzS (i j v)*
         std::string kind = t.next(); int nv = t.next_int(); int n = t.next_int();
